@@ -220,3 +220,31 @@ func VerifH_C09_real_parallel() {
 	verifrt.Settle()
 	verifrt.Assert(verifrt.LiveGoroutines() == 0, "no goroutine survives the run")
 }
+
+// C03 / composition: the first REAL plugin step cannot be deployed; the second one, which consumes the
+// first one's output, is deployed (possibly slowly: stall decision) and then waits for an input that can
+// never come. The workflow declares a second output on a stage of the waiting step that the graph cannot
+// rule out while the step lives. No declared output is producible: the engine itself ends the run with an
+// error, whichever event happens last (the failure of the first step or the second one starting to wait).
+func VerifH_C03_real_stuck_waiter() {
+	ea, eb := plugin.VerifNewScriptedEnv("success"), plugin.VerifNewScriptedEnv("success")
+	steps := []vRealStep{
+		{id: "a", env: ea, fields: map[string]any{"input": verifStepInput(vx("input"))}},
+		{id: "b", env: eb, fields: map[string]any{"input": verifStepInput(vx("steps", "a", "outputs", "success", "v"))}},
+	}
+	ew := verifPrepareReal(steps, map[string]any{
+		"success":   map[any]any{"r": vx("steps", "b", "outputs", "success", "v")},
+		"b_crashed": map[any]any{"reason": vx("steps", "b", "crashed", "error")},
+	})
+	ea.VerifFailDeploy()
+	res := verifExecute(ew, newRun(), tWorkflow{}, verifrt.NondetVal("input"))
+	verifrt.Assert(!res.stuck, "no declared output is producible: the engine ends the run by itself")
+	verifrt.Assert(res.err != nil && res.id == "", "no declared output is producible: an error and no output")
+	if res.err != nil {
+		verifrt.Reach("error")
+	}
+	verifrt.Assert(eb.VerifExecuted() == 0, "the second plugin is never executed")
+	verifrt.Settle()
+	verifrt.Assert(ea.VerifAllClosed() && eb.VerifAllClosed(), "every deployed plugin (including the schema probes) was closed")
+	verifrt.Assert(verifrt.LiveGoroutines() == 0, "no goroutine survives the run")
+}
